@@ -159,6 +159,8 @@ class FileScanHelper:
             self.__handle_scan_error(
                 next_file_name, this_exception, allow_shortcut=True
             )
+        except (OSError, UnicodeDecodeError) as this_exception:
+            self.__handle_scan_error(next_file_name, this_exception)
         return False
 
     def __scan_file(
@@ -247,6 +249,8 @@ class FileScanHelper:
             if not self.__continue_on_error:
                 raise
             self.__handle_scan_error(next_file, this_exception, allow_shortcut=True)
+        except (OSError, UnicodeDecodeError) as this_exception:
+            self.__handle_scan_error(next_file, this_exception)
         return did_fix_file, did_succeed
 
     # pylint: enable=too-many-arguments
